@@ -2168,12 +2168,10 @@ impl TypeChecker {
         let ctx = TypeCtx::new();
         // A blob or enum may mention a type that is declared further down: its declaration has
         // not been seen yet and the mention becomes an unknown type. The type declarations are
-        // therefore gone through once before everything else (and again, in place, below), so
-        // that the second time every mention finds its declaration.
-        for statement in statements.iter() {
-            if matches!(statement, Statement::Blob { .. } | Statement::Enum { .. }) {
-                self.outer_statement(statement, ctx)?;
-            }
+        // therefore gone through before everything else, each after the declarations it
+        // mentions (and again, in place, below), so that every mention finds its declaration.
+        for statement in crate::dependency::type_declaration_order(statements) {
+            self.outer_statement(statement, ctx)?;
         }
         for statement in statements.iter() {
             self.outer_statement(statement, ctx)?;
